@@ -44,7 +44,173 @@ func c17LookupCases(tier string) int {
 	if tier == "thorough" {
 		n = 6 * n // other PRNG draws: list representations, present/absent split
 	}
-	return n + len(c17exoticKinds)*2
+	return n + len(c17exoticKinds)*2 + len(c17builtOpts)
+}
+
+// lists the library itself builds (an edit into an empty Go map creates the map that holds the list) under the options that change how
+// nodeutil.Node keeps enumeration / identityref leaves in Go data
+var c17builtOpts = []struct {
+	name string
+	opts nodeutil.NodeOptions
+}{{"defaults", nodeutil.NodeOptions{}}, {"EnumAsStrings", nodeutil.NodeOptions{EnumAsStrings: true}}, {"EnumAsInt", nodeutil.NodeOptions{EnumAsInt: true}}, {"IdentitiesAsStrings", nodeutil.NodeOptions{IdentitiesAsStrings: true}}, {"reflect", nodeutil.NodeOptions{}}}
+
+func c17Built(c *core.Ctx, k int) {
+	cfg := c17builtOpts[k]
+	yang := `module m { namespace "urn:m"; prefix m; revision 2020-01-01; identity base-id; identity alpha { base base-id; } identity beta { base base-id; } identity gamma { base base-id; }
+  list le { key id; leaf id { type enumeration { enum red; enum green { value 7; } enum blue; } } leaf payload { type string; } }
+  list li { key id; leaf id { type identityref { base base-id; } } leaf payload { type string; } }
+  list ls { key id; leaf id { type string; } leaf payload { type string; } }
+  list l8 { key id; leaf id { type uint8; } leaf payload { type string; } }
+  list l3 { key id; leaf id { type int32; } leaf payload { type string; } } }`
+	m, err := parser.LoadModuleFromString(nil, yang)
+	if err != nil {
+		c.R.Inconclusive = "built-list schema does not load: " + head(err.Error(), 200)
+		return
+	}
+	lists := []struct {
+		name            string
+		present, absent []string
+		quote           bool
+	}{{"le", []string{"green", "red"}, []string{"blue"}, true}, {"li", []string{"beta", "alpha"}, []string{"gamma"}, true}, {"ls", []string{"b", "a", "10", "9"}, []string{"c"}, true},
+		{"l8", []string{"200", "3", "0"}, []string{"4"}, false}, {"l3", []string{"-5", "70000", "0"}, []string{"4"}, false}}
+	app := map[string]interface{}{}
+	var n node.Node = &nodeutil.Node{Object: app, Options: cfg.opts}
+	if cfg.name == "reflect" {
+		n = nodeutil.ReflectChild(app)
+	}
+	root := node.NewBrowser(m, n).Root()
+	c.SetSample(map[string]interface{}{"store": "Go map filled by the library", "options": cfg.name})
+	jv := func(quote bool, v string) string {
+		if quote {
+			return fmt.Sprintf("%q", v)
+		}
+		return v
+	}
+	for _, l := range lists {
+		tag := fmt.Sprintf("built/%s/%s", cfg.name, l.name)
+		var es []string
+		for _, k := range l.present {
+			es = append(es, fmt.Sprintf(`{"id":%s,"payload":"p-%s"}`, jv(l.quote, k), k))
+		}
+		doc := fmt.Sprintf(`{%q:[%s]}`, l.name, strings.Join(es, ","))
+		c.Eval()
+		var uerr error
+		if c.Guard("fill "+tag, func() {
+			in, e := nodeutil.ReadJSON(doc)
+			if e != nil {
+				uerr = e
+				return
+			}
+			uerr = root.UpsertFrom(in)
+		}) {
+			continue
+		}
+		if uerr != nil {
+			c.Violate("lookup-error/"+tag+"/fill", "UpsertFrom(%s) into an empty Go map failed: %v", doc, uerr)
+			continue
+		}
+		find := func(k string) (string, bool, error) {
+			var sel *node.Selection
+			var ferr error
+			payload := ""
+			if c.Guard("Find "+l.name+"="+k, func() {
+				sel, ferr = root.Find(l.name + "=" + k)
+				if ferr == nil && sel != nil {
+					if v, e := sel.GetValue("payload"); e != nil {
+						ferr = e
+					} else if v != nil {
+						payload = v.String()
+					}
+				}
+			}) {
+				return "", false, fmt.Errorf("panic")
+			}
+			return payload, sel != nil, ferr
+		}
+		check := func(when string) {
+			for _, k := range l.present {
+				c.Eval()
+				c.Shape("%s/present", tag)
+				got, found, ferr := find(k)
+				if ferr != nil && ferr.Error() == "panic" {
+					continue
+				}
+				if ferr != nil || !found || got != "p-"+k {
+					c.Violate("lookup-missed/"+tag, "%s: Find(%q) = found %v, payload %q, error %v; the entry was written with payload %q", when, l.name+"="+k, found, got, ferr, "p-"+k)
+				}
+			}
+			for _, k := range l.absent {
+				c.Eval()
+				c.Shape("%s/absent", tag)
+				if _, found, ferr := find(k); found || (ferr != nil && ferr.Error() != "panic") {
+					c.Violate("lookup-found-absent/"+tag, "%s: Find(%q) = found %v, error %v; no entry has that key", when, l.name+"="+k, found, ferr)
+				}
+			}
+		}
+		check("after the edit that created the list")
+		// the same key again: the entry is found and merged, not replaced by a new one
+		c.Eval()
+		again := fmt.Sprintf(`{%q:[{"id":%s}]}`, l.name, jv(l.quote, l.present[0]))
+		if !c.Guard("upsert again "+tag, func() {
+			in, _ := nodeutil.ReadJSON(again)
+			uerr = root.UpsertFrom(in)
+		}) {
+			if uerr != nil {
+				c.Violate("lookup-error/"+tag+"/again", "UpsertFrom(%s) failed: %v", again, uerr)
+			}
+			check("after an upsert naming " + l.present[0] + " again")
+		}
+		// every row once
+		c.Eval()
+		var rows []string
+		var rerr error
+		if !c.Guard("rows "+tag, func() {
+			lsel, e := root.Find(l.name)
+			if e != nil || lsel == nil {
+				rerr = fmt.Errorf("list not found: %v", e)
+				return
+			}
+			it, e := lsel.First()
+			for ; e == nil && it.Selection != nil; it, e = it.Next() {
+				if v, _ := it.Selection.GetValue("payload"); v != nil {
+					rows = append(rows, v.String())
+				}
+			}
+			rerr = e
+		}) {
+			want := map[string]bool{}
+			for _, k := range l.present {
+				want["p-"+k] = true
+			}
+			okRows := len(rows) == len(want)
+			for _, p := range rows {
+				okRows = okRows && want[p]
+			}
+			if rerr != nil || !okRows {
+				c.Violate("lookup-rows/"+tag, "walking the list gives %v (error %v), it holds %v", rows, rerr, l.present)
+			}
+		}
+		// delete by key removes that entry and no other
+		c.Eval()
+		victim := l.present[len(l.present)-1]
+		var derr error
+		if !c.Guard("delete "+tag, func() {
+			sel, e := root.Find(l.name + "=" + victim)
+			if e != nil || sel == nil {
+				derr = fmt.Errorf("not found: %v", e)
+				return
+			}
+			derr = sel.Delete()
+		}) {
+			if derr != nil {
+				c.Violate("lookup-error/"+tag+"/delete", "deleting %s=%s failed: %v", l.name, victim, derr)
+			} else {
+				l.absent = append(l.absent, victim)
+				l.present = l.present[:len(l.present)-1]
+				check("after deleting " + victim)
+			}
+		}
+	}
 }
 
 // key types whose Go values are not plain comparable scalars of one type: lists kept as []map[string]interface{} with the natural Go
@@ -133,7 +299,11 @@ func c17Exotic(c *core.Ctx, k int) {
 }
 
 func c17Lookup(c *core.Ctx, k int) {
-	if base := c17LookupCases(c.Tier) - len(c17exoticKinds)*2; k >= base {
+	if base := c17LookupCases(c.Tier) - len(c17builtOpts); k >= base {
+		c17Built(c, k-base)
+		return
+	}
+	if base := c17LookupCases(c.Tier) - len(c17builtOpts) - len(c17exoticKinds)*2; k >= base {
 		c17Exotic(c, k-base)
 		return
 	}
